@@ -1,5 +1,6 @@
 (* Non-vacuity of the C08 theorems: concrete inputs meeting every hypothesis. *)
-From GL Require Import Common.Bytes Front.Lines Front.Lexer Front.LexerFacts.
+From GL Require Import Common.Bytes Front.Lines Front.Lexer Front.LexerFacts Front.LinesFacts
+  Front.Render Front.RenderFacts.
 Open Scope Z_scope.
 
 (* "x=1 --c" + LF + "y" : a token is delivered and bytes are consumed *)
@@ -18,3 +19,42 @@ Proof. eexists; split; vm_compute; reflexivity. Qed.
 (* an unterminated string: the error case of lex_total_classified, at EOF (line -1) *)
 Example ex_lex_err : exists toks e, lex [120;61;34;97] = LexErr toks e /\ e_line e = -1.
 Proof. eexists; eexists; split; vm_compute; reflexivity. Qed.
+
+(* lexer_lines_correct: bytes with all four line-end forms; the second token is on line 5 *)
+Definition ex_lines_src : bytes := [97; 10; 13; 10; 13; 13; 98].   (* a LF CR LF CR CR b *)
+
+Example ex_lines_hyp : is_bytes ex_lines_src = true.
+Proof. reflexivity. Qed.
+
+Example ex_lines_tokens :
+  exists t1 t2, lex ex_lines_src = LexOk [t1; t2] /\ tk_line t1 = 1 /\ tk_line t2 = 4 /\
+                line_of_offset ex_lines_src (tk_off t2) = 4.
+Proof. eexists; eexists; split; [vm_compute; reflexivity|]. vm_compute. auto. Qed.
+
+(* reference line counting: LF CR is one line end, CR CR are two *)
+Example ex_count_nl : count_nl [10; 13; 10; 13; 13] = 3 /\ count_nl [13; 10; 13; 10] = 2 /\ count_nl [10; 10] = 2.
+Proof. vm_compute. auto. Qed.
+
+(* lex_render: local --[=[ ]=] x = "a\n" .. [[<CR LF>z]] -- done <CR>  with \f, \v, comments *)
+Definition ex_items : list (sep * lexeme) :=
+  [ ([SpBlank 12; SpLine [91; 61; 61; 32; 104] NlCRLF], LxName [108; 111; 99; 97; 108]);
+    ([SpBlock 1 [93; 93; 10; 93; 61]], LxName [120]);
+    ([], LxSym 61);
+    ([SpNl NlLF; SpNl NlCR; SpBlank 11], LxString 34 [SiChar 97; SiEsc 110; SiEscNl NlLFCR; SiDec 0 6 5]);
+    ([], LxSym T2Comma);
+    ([SpBlank 32], LxLong 0 [13; 10; 122; 93]);
+    ([], LxSym 45);
+    ([SpBlank 32], LxNumber [49; 46; 53; 101; 45; 51]) ].
+Definition ex_trailer : sep := [SpLine [32; 100; 111; 110; 101] NlCR].
+
+Example ex_render_good : good ex_items ex_trailer = true.
+Proof. vm_compute. reflexivity. Qed.
+
+Example ex_render_tokens :
+  lex (render ex_items ex_trailer) = LexOk (expected_tokens ex_items ex_trailer)
+  /\ length (expected_tokens ex_items ex_trailer) = 8%nat.
+Proof. split; vm_compute; reflexivity. Qed.
+
+(* the separator may be empty exactly where nothing merges: "x=" is fine, "x1" is not two lexemes *)
+Example ex_merge_rejected : good [([], LxName [120]); ([], LxNumber [49])] [] = false.
+Proof. reflexivity. Qed.
